@@ -459,6 +459,10 @@ namespace awkward {
     else {
       ssize_t out = itemsize_;
       for (size_t i = 0;  i < shape_.size();  i++) {
+        if (shape_[i] == 0) {
+          // no items at all: the formula below would count strides backward from data()
+          return 0;
+        }
         out += (shape_[i] - 1)*strides_[i];
       }
       return out;
